@@ -33,6 +33,16 @@ CHECKS["C16"] = {
     "note": COMMON_NOTE + "The disjointness check goes through the SpanSet model of C10 (Overlaps relation) exactly as the code does; sorted() is modelled by List.mergeSort.",
     "technique": "Lean 4 proof (constructor iff, bisect loop invariant, uniqueness by disjointness) + model/code correspondence check",
 }
+CHECKS["C15"] = {
+    "text": "Lean: for every history that feeds each serial at most once with full drains at arbitrary points, the concatenated output is exactly the items of serials 0..waiting_for-1 in order, everything below waiting_for was fed, the buffer holds exactly the fed-but-unemitted serials and len is their number; after a drain waiting_for is the least unfed serial; a permutation of 0..n-1 plus a final drain emits everything once in order; same for PrintBuffer with flush/clear as documented; CircularBuffer presents the last min(k,c) items since the last clear and rejects indices outside 0..len-1 (Python's non-negative modulo modelled with Int.emod).",
+    "note": COMMON_NOTE + "A drain is a complete iteration (the property's drain points); items are naturals.",
+    "technique": "Lean 4 proof (permutation invariant fed ~ range wf ++ held; ring index invariant) + model/code correspondence check",
+}
+CHECKS["C17"] = {
+    "text": "Lean: sorted_combinations (priority queue seeded with singletons, pop = minimum of the Python tuple order, extension by later elements, fuel 2^n shown sufficient) yields a permutation of all non-empty index-ordered combinations, each with its key, in non-decreasing key order; the min-combination scan returns exactly the combinations whose sum is the least sum in [i_start, i_end), each once. Only key-minimality of the pop is used, so tie-breaks are free.",
+    "note": COMMON_NOTE + "heapq is modelled as 'pop returns the minimum of a strict total order'; scores are naturals; elements are indices.",
+    "technique": "Lean 4 proof (pending-subtree invariant, key lower bound) + model/code correspondence check",
+}
 NOT_APPLICABLE = []
 NOTES = ("Checks are added as their models, theorems and correspondence harnesses are completed; properties not yet listed are "
          "work in progress (see DESIGN.md), not 'not applicable'.")
